@@ -7,8 +7,8 @@ git diff --quiet || { echo "repo dirty"; exit 2; }
 bak=$(mktemp -d /tmp/evbak.XXXXXX); cp -a /verif/evidence/. $bak/
 git apply /verif/seeded/$id/patch.diff || { echo "apply failed"; rm -rf $bak; exit 2; }
 for p in "$@"; do
-  out=$(cd /verif && VERIF_SEED=${VERIF_SEED:-0} python3 check.py $p --tier ${TIER:-quick} 2>&1 | tail -3)
-  echo "[$id] $p => $(echo "$out" | tr '\n' ' ' | cut -c1-400)"
+  out=$(cd /verif && VERIF_SEED=${VERIF_SEED:-0} python3 check.py $p --tier ${TIER:-quick} 2>&1 | grep -v "^KNOWN-FINDING\|^WARNING" | tail -2)
+  echo "[$id] $p => $(echo "$out" | tr '\n' ' ' | cut -c1-300)"
 done
 git -C /repo checkout -- . && git -C /repo clean -qfd src
 rm -rf /verif/evidence/*.json; cp -a $bak/. /verif/evidence/; rm -rf $bak
